@@ -12,12 +12,32 @@ import (
 // methods, any flag combination and destination. Inputs for which the models
 // predict the shape of a recorded finding are dropped (DropKF), so every
 // failure here is new. VERIF_SEED moves the sample.
-func CorpusRandom(seed int64, tier string) []*Case {
+func CorpusRandom(seed int64, tier string) []*Case { return corpusRandom(seed, tier, "plain") }
+
+// CorpusRandomGeneric: the same generator over generic interfaces - one to
+// three type parameters under random constraints (any, method sets, unions,
+// named constraints of the source package and of dependencies, comparable
+// ahead of a union), used as leaves anywhere in the signatures.
+func CorpusRandomGeneric(seed int64, tier string) []*Case {
+	return corpusRandom(seed+1000003, tier, "generic")
+}
+
+// CorpusRandomMulti: two to four random interfaces of one package requested
+// in one run (some under a mock-name alias), each also generated alone.
+func CorpusRandomMulti(seed int64, tier string) []*Case {
+	return corpusRandom(seed+2000003, tier, "multi")
+}
+
+func corpusRandom(seed int64, tier, variant string) []*Case {
 	rng := rand.New(rand.NewSource(seed*104729 + 7))
+	var curTPs []string // type parameters of the interface being generated
 	pkgs := []Pkg{dep("alpha", "x", "alpha"), dep("beta", "x", "beta"), dep("client", "one", "client"), dep("client", "two", "client"), dep("s1", "n", "s1")}
 	names := []string{"s", "s1", "n", "x", "v", "id", "key", "ctx", "client", "alpha", "beta", "store", "in", "out", "res", "err", "a", "b", "xOut", "_key", "url", "sync", "data", "opts"}
 	var leaf func() T
 	leaf = func() T {
+		if len(curTPs) > 0 && rng.Intn(3) == 0 {
+			return TParam(curTPs[rng.Intn(len(curTPs))])
+		}
 		switch rng.Intn(12) {
 		case 0:
 			return Basic("string")
@@ -103,10 +123,25 @@ func CorpusRandom(seed int64, tier string) []*Case {
 	if tier == "thorough" {
 		n = 1500
 	}
+	if variant != "plain" {
+		n = n * 2 / 5
+	}
 	var cases []*Case
+	var group []Iface
 	cfgs := allCfgs()
+	tpNames := [][]string{{"T"}, {"K", "V"}, {"A", "B", "C"}, {"t"}, {"Id", "uRL"}, {"kk", "V"}}
+	tpCons := []string{"any", "any", "stringer", "union", "method", "pkgnum:0", "pkgnum:4", "pkgiface:1", "ustring", "ufloat", "cmpunion", "unioncmp", "localkey", "markerunion", "pkgkey:1"}
 	for i := 0; i < n; i++ {
 		it := Iface{Name: fmt.Sprintf("R%04d", i)}
+		curTPs = nil
+		ifaceWhich := 2 + rng.Intn(2)
+		if variant == "generic" {
+			curTPs = tpNames[rng.Intn(len(tpNames))]
+			for _, tn := range curTPs {
+				it.TParams = append(it.TParams, TypeParam{Name: tn, Constraint: tpCons[rng.Intn(len(tpCons))]})
+			}
+			it.OneFile = true
+		}
 		nm := 1 + rng.Intn(4)
 		for j := 0; j < nm; j++ {
 			np := rng.Intn(4)
@@ -143,6 +178,9 @@ func CorpusRandom(seed int64, tier string) []*Case {
 				rl = append(rl, par(rn, typ(1+rng.Intn(2))))
 			}
 			which := 2 + rng.Intn(2)
+			if it.OneFile {
+				which = ifaceWhich // one file: one of the two packages called client only
+			}
 			for k := range pl {
 				fixClient(&pl[k].T, which)
 			}
@@ -150,7 +188,7 @@ func CorpusRandom(seed int64, tier string) []*Case {
 				fixClient(&rl[k].T, which)
 			}
 			am := map[int]string{}
-			if rng.Intn(5) == 0 {
+			if rng.Intn(5) == 0 && !(it.OneFile && j > 0) {
 				p := rng.Intn(len(pkgs))
 				am[p] = fmt.Sprintf("al%d", p)
 			}
@@ -164,11 +202,42 @@ func CorpusRandom(seed int64, tier string) []*Case {
 			it.Aliases = append(it.Aliases, am)
 		}
 		sortMethods(&it)
-		src := newSrc([]string{"rsrc", "alpha", "client"}[rng.Intn(3)], pkgs, it)
 		cfg := cfgs[rng.Intn(len(cfgs))]
 		if cfg.Dest == "explicitSame" {
 			cfg.Dest = "implicit" // KF-06 whenever a source type is mentioned
 		}
+		switch variant {
+		case "generic":
+			if len(it.Aliases) > 1 {
+				it.Aliases = it.Aliases[:1]
+			}
+			src := newSrc([]string{"rgsrc", "alpha", "knum"}[rng.Intn(3)], pkgs, it)
+			cfg.Args = []string{it.Name}
+			cases = append(cases, &Case{Origin: fmt.Sprintf("random-generic:seed=%d:#%d", seed, i), Src: src, Cfg: cfg, DropKF: true, Repeat: 2, RunFmts: i%4 == 0,
+				Judge: []string{"C01", "C02", "C08", "C09", "C10", "C11", "C16", "C19"}})
+			continue
+		case "multi":
+			group = append(group, it)
+			if len(group) < 2+i%3 && i != n-1 {
+				continue
+			}
+			src := newSrc([]string{"rmsrc", "beta", "client"}[rng.Intn(3)], pkgs, group...)
+			for gi, g := range group {
+				a := g.Name
+				if cfg.Dest == "other" && rng.Intn(4) == 0 {
+					a += fmt.Sprintf(":Fake%d", gi)
+				}
+				cfg.Args = append(cfg.Args, a)
+			}
+			if rng.Intn(2) == 0 { // not in declaration order
+				cfg.Args[0], cfg.Args[len(cfg.Args)-1] = cfg.Args[len(cfg.Args)-1], cfg.Args[0]
+			}
+			group = nil
+			cases = append(cases, &Case{Origin: fmt.Sprintf("random-multi:seed=%d:#%d", seed, i), Src: src, Cfg: cfg, DropKF: true, Repeat: 2, Solo: true, RunFmts: i%4 == 0,
+				Judge: []string{"C01", "C02", "C08", "C10", "C11", "C14", "C16", "C19", "C20"}})
+			continue
+		}
+		src := newSrc([]string{"rsrc", "alpha", "client"}[rng.Intn(3)], pkgs, it)
 		cfg.Args = []string{it.Name}
 		cases = append(cases, &Case{Origin: fmt.Sprintf("random:seed=%d:#%d", seed, i), Src: src, Cfg: cfg, DropKF: true, AutoNames: true, Repeat: 2,
 			Judge: []string{"C01", "C02", "C10", "C11", "C12", "C13", "C14", "C19"}})
